@@ -46,7 +46,7 @@ let () =
           let src = { s_rest = bytes_of_hex stream;
                       s_chunks = List.map (fun c -> nat_of_int (int_of_string c)) (split_on ',' chunks) } in
           let ops = List.map (fun o ->
-              let nn = o.[0] = 'n' in
+              let nn = o.[0] <> 'z' in   (* n, p, q, r: destinations of 1, 2, 4, 8 byte elements; the length is in bytes *)
               (nn, nat_of_int (int_of_string (String.sub o 1 (String.length o - 1)))))
               (split_on ',' ops) in
           let ((outs, _), _) = rb_run (rb_init cap) src ops in
